@@ -400,9 +400,15 @@ theorem bIs_safe (p : Value → Bool) (args : List Value) : (bIs p args).safe :=
 theorem builtinTable_safe (fo : FOps) : ∀ p ∈ builtinTable fo .fixed, ∀ args, (p.2 args).safe := by
   intro p hp args
   simp only [builtinTable, List.mem_cons, List.mem_nil_iff, or_false] at hp
-  rcases hp with h | h | h | h | h | h | h | h | h | h | h | h | h | h | h | h | h | h | h | h | h | h | h | h | h | h | h | h | h | h | h | h | h | h <;> subst h <;> simp only []
+  rcases hp with h | h | h | h | h | h | h | h | h | h | h | h | h | h | h | h | h | h | h | h | h | h | h | h | h | h | h | h | h | h | h | h | h | h | h | h | h | h | h | h <;> subst h <;> simp only []
   · unfold bAbs; split <;> simp [iabs_safe]
-  · unfold bSqrt; split <;> simp
+  · unfold bFn1; split <;> simp
+  · unfold bFn1; split <;> simp
+  · unfold bFn1; split <;> simp
+  · unfold bFn1; split <;> simp
+  · unfold bFn1; split <;> simp
+  · unfold bFn1; split <;> simp
+  · unfold bFn1; split <;> simp
   · unfold bFloor; split <;> simp
   · unfold bCeil; split <;> simp
   · unfold bRound; split <;> simp
@@ -755,6 +761,51 @@ theorem foldOpt_sound (fo : FOps) (idents : Bool) (env : Env) :
     have he := fold_sound fo idents env e (fun hi => by have := hg hi; simpa [unsafeIdentOpt] using this)
     simp only [foldOpt, evalOpt, he]
 end
+
+
+/-! ## C08: the order on dyadics is the order of the rational numbers they denote -/
+
+
+theorem two_ne_zero_rat : (2 : Rat) ≠ 0 := by decide
+
+theorem Dy.toRat_scaled (d : Dy) (k : Int) (hk : k ≤ d.exp) :
+    d.toRat = ((d.scaled k : Int) : Rat) * (2 : Rat) ^ k := by
+  unfold Dy.toRat Dy.scaled
+  have h1 : d.exp = ((d.exp - k).toNat : Int) + k := by omega
+  rw [Rat.intCast_mul, Rat.intCast_pow, Rat.mul_assoc]
+  congr 1
+  have h2 : (2 : Rat) ^ d.exp = (2 : Rat) ^ (((d.exp - k).toNat : Int) + k) := by rw [← h1]
+  rw [h2, Rat.zpow_add two_ne_zero_rat, Rat.zpow_natCast]
+  rfl
+
+theorem Dy.cmp_lt_iff (x y : Dy) : Dy.cmp x y = .lt ↔ x.toRat < y.toRat := by
+  have hk1 : min x.exp y.exp ≤ x.exp := by omega
+  have hk2 : min x.exp y.exp ≤ y.exp := by omega
+  rw [Dy.toRat_scaled x _ hk1, Dy.toRat_scaled y _ hk2,
+    Rat.mul_lt_mul_right (Rat.zpow_pos (by decide)), Rat.intCast_lt_intCast]
+  unfold Dy.cmp
+  exact icmp_lt_iff
+
+theorem Dy.cmp_eq_iff (x y : Dy) : Dy.cmp x y = .eq ↔ x.toRat = y.toRat := by
+  have hk1 : min x.exp y.exp ≤ x.exp := by omega
+  have hk2 : min x.exp y.exp ≤ y.exp := by omega
+  rw [Dy.toRat_scaled x _ hk1, Dy.toRat_scaled y _ hk2]
+  unfold Dy.cmp
+  rw [icmp_eq_iff]
+  constructor
+  · intro h; rw [h]
+  · intro h
+    have hp : (0 : Rat) < (2 : Rat) ^ (min x.exp y.exp) := Rat.zpow_pos (by decide)
+    rcases Int.lt_trichotomy (x.scaled (min x.exp y.exp)) (y.scaled (min x.exp y.exp)) with hlt | heq | hgt
+    · have := (Rat.mul_lt_mul_right hp).mpr (Rat.intCast_lt_intCast.mpr hlt)
+      rw [h] at this; exact absurd this Rat.lt_irrefl
+    · exact heq
+    · have := (Rat.mul_lt_mul_right hp).mpr (Rat.intCast_lt_intCast.mpr hgt)
+      rw [h] at this; exact absurd this Rat.lt_irrefl
+
+theorem Dy.cmp_gt_iff (x y : Dy) : Dy.cmp x y = .gt ↔ y.toRat < x.toRat := by
+  rw [← Dy.cmp_lt_iff y x, Dy.cmp_rev x y]
+  cases Dy.cmp x y <;> simp [Ordering.rev]
 
 
 end Varpulis.Expr
